@@ -295,3 +295,39 @@ func init() {
 		Stubs:   stubsCommon,
 	})
 }
+
+func init() {
+	register(&CheckDef{
+		ID:    "C06",
+		Title: "Merge preserves every key's value and actually reclaims the garbage",
+		Reach: []string{"done", "merge-done", "merged-record-checked", "fewer-files-out", "batch-committed"},
+		Jobs: func(tier string) []JobSpec {
+			var js []JobSpec
+			add := func(name string, params map[string]int64) {
+				js = append(js, JobSpec{Name: name, Harness: "root", Func: "verifHarnessC06", Params: params, Scale: scaleDF(32), ReplayCount: int(params["permute"]) * 30})
+			}
+			base := p("pool", 2, "klen", 1, "vlens", 2, "index", 3, "shards", 1, "dfs_lo", 60, "dfs_hi", 160)
+			if tier == "quick" {
+				add("plain-k3-post", merge(base, p("k", 3, "ops", opPut|opDelete, "post", 1)))
+				add("plain-k3-permute-big", merge(base, p("k", 3, "ops", opPut|opDelete, "vlens", 3, "vbig", 25, "permute", 1)))
+				add("batch-k2", merge(base, p("k", 2, "ops", opPut|opBatch, "bmax", 2)))
+				add("btree-mmap-k2", merge(base, p("k", 2, "ops", opPut|opDelete, "index", 1, "io", 1, "post", 1)))
+			} else {
+				add("plain-k4-post", merge(base, p("k", 4, "ops", opPut|opDelete, "post", 1)))
+				add("plain-k4-permute-big", merge(base, p("k", 4, "ops", opPut|opDelete, "vlens", 3, "vbig", 25, "permute", 1)))
+				add("batch-k3-post", merge(base, p("k", 3, "ops", opPut|opDelete|opBatch, "bmax", 2, "post", 1)))
+				add("two-merges-k3", merge(base, p("k", 3, "ops", opPut|opDelete|opMerge|opRestart, "post", 1)))
+				add("skiplist-mmap-k3", merge(base, p("k", 3, "ops", opPut|opDelete, "index", 2, "io", 1, "post", 1)))
+			}
+			js = append(js, JobSpec{Name: "witness", Harness: "root", Func: "verifHarnessC06", Params: merge(base, p("k", 1, "ops", opPut, "witness", 1)), Scale: scaleDF(32), Witness: true})
+			return js
+		},
+		Assumptions: []string{"blockSize scaled to 32 (Level 1)", "I/O never fails", "statfs reports 16 GiB available", "sequential: the racing writer of the property is covered by C08/C09's schedule harnesses only"},
+		Bounds: map[string]string{
+			"quick":    "K=2-3 ops (Put/Delete/batch<=2) with DataFileSize symbolic in [60,160] (so the input has 1-4 files), Merge, optional post-merge Put/Delete, adopting restart, second restart; every iteration order of the older-files map; std and mmap",
+			"thorough": "K=3-4, a second merge and restarts inside the history",
+		},
+		Outside: "histories longer than K; disk-full; background merge ticker; merge racing with writers (see C08/C09)",
+		Stubs:   stubsCommon,
+	})
+}
